@@ -375,7 +375,17 @@ impl<R: Read> Reader<R> {
 
         let file_size: u64 = match entry {
             RpmPayloadEntry::Cpio(ref c) => c.file_size as u64,
-            RpmPayloadEntry::Stripped(idx) => file_entries[idx as usize].size as u64,
+            RpmPayloadEntry::Stripped(idx) => match file_entries.get(idx as usize) {
+                Some(file_entry) => file_entry.size as u64,
+                // the index value which is_trailer() treats as the end marker carries no data
+                None if idx == u32::MAX => 0,
+                None => {
+                    return Err(io::Error::new(
+                        io::ErrorKind::InvalidData,
+                        "Stripped entry refers to a file index that is not in the header",
+                    ));
+                }
+            },
         };
 
         Ok(Reader {
